@@ -56,6 +56,25 @@ def run(ctx):
                   "%d recorded history(ies) on %s violate the clause; shortest: %s" % (len(ts), t0["transport"], json.dumps(evs)),
                   {"trace": t0, "cmd": "bin/check C08 --tier %s" % ctx.tier})
 
+    # free-running bursts: duplicated / reordered notifications while the application's requests replace the read loop
+    out2 = os.path.join(ctx.work, "stress.ndjson")
+    vf.drv(ctx, ["c08stress", out2, str(60 if ctx.tier == "thorough" else 12)], timeout=1800)
+    stress = vf.read_ndjson(out2)
+    if sum(1 for x in stress if x["setup"] and x["delivered"] > 10 and x["requests"] > 10) * 2 < len(stress):
+        raise vf.Machinery("stress bursts did not run: %s" % stress[:2])
+    sbad, g2, d2 = vf.judge_records(ctx, "obs", "RecC08", "RecC08.cfg", stress, shards=1, timeout=600)
+    ctx.add("states", d2)
+    ctx.add("transitions", g2)
+    ctx.add("traces_validated_against_impl", len(stress))
+    ctx.cov["stress_bursts"] = len(stress)
+    ctx.cov["stress_notifications_sent"] = sum(x["sent"] for x in stress)
+    ctx.cov["stress_callback_invocations"] = sum(x["delivered"] for x in stress)
+    ctx.cov["stress_requests_meanwhile"] = sum(x["requests"] for x in stress)
+    for clause, idxs in sorted(sbad.items()):
+        xs = [stress[i] for i in idxs]
+        vf.report(ctx, clause, {"mode": "stress"}, "%d burst(s): a notification that was already delivered reached the callback again (or one with a foreign token did); e.g. %s" % (len(xs), json.dumps(xs[0])),
+                  {"record": xs[0], "cmd": "bin/check C08 --tier %s" % ctx.tier})
+
     def mutate(t, rng):
         ev = [dict(e) for e in t["ev"]]
         for n, e in enumerate(ev):
